@@ -9,6 +9,7 @@ import (
 	"github.com/orda-io/orda/client/pkg/iface"
 	"github.com/orda-io/orda/client/pkg/model"
 	"github.com/orda-io/orda/client/pkg/orda"
+	"github.com/orda-io/orda/server/schema"
 
 	"verif/sim/kernel"
 )
@@ -178,6 +179,15 @@ func (r *run) dispatch(e Ev) {
 		r.resetCollection(e)
 	case "rejoin":
 		r.rejoin(e)
+	case "mqttfail":
+		// the notification broker cannot be reached for the next topic subscription(s) of this client
+		a := r.actor(e.A)
+		if a.realtime {
+			a.mq.b.mu.Lock()
+			a.mq.failSubs = 1 + mod(e.N, 2)
+			a.mq.b.mu.Unlock()
+			r.fault("mqtt-subscribe-fails-armed")
+		}
 	case "wire":
 		r.wireEvent(e)
 	}
@@ -252,6 +262,14 @@ func (r *run) open(a *actor, e Ev) {
 	key, kind, mode := e.K, e.Kind, e.Mode
 	if key == "" {
 		key = "k1"
+	}
+	if a.realtime && r.prop != "C18" {
+		// (same reason as below) outside the realtime property a realtime client only makes entries that
+		// cannot be refused: subscribe-or-create with the type the key has, if it has one
+		mode = "soc"
+		if have := r.typeOfKey(a.collection, key); have != "" && have != kind {
+			return
+		}
 	}
 	if a.realtime && r.res.Probes["reset"] > 0 {
 		// After a reset the plan's idea of which keys exist is void. A realtime client whose entry is
@@ -328,6 +346,28 @@ func (r *run) open(a *actor, e Ev) {
 	a.dts = append(a.dts, d)
 	r.probe("open-" + mode)
 	r.logf("%s opens %s %s (%s)", a.name, kind, key, mode)
+}
+
+// typeOfKey: kind of the datatype stored under (collection, key), "" if none.
+func (r *run) typeOfKey(coll, key string) string {
+	num := r.collNum(coll)
+	for _, d := range r.docsOf(schema.CollectionNameDatatypes) {
+		var dd schema.DatatypeDoc
+		if decodeInto(d, &dd) == nil && dd.CollectionNum == num && dd.Key == key {
+			switch dd.Type {
+			case "COUNTER":
+				return "counter"
+			case "MAP":
+				return "map"
+			case "LIST":
+				return "list"
+			case "DOCUMENT":
+				return "doc"
+			}
+			return dd.Type
+		}
+	}
+	return ""
 }
 
 func isNilIface(v interface{}) bool {
